@@ -161,10 +161,15 @@ def check(case, ctx):
     ra, _ = GC.optimize_quiet(g3, fix_first_pose=ff, verbose=False)
     rb, _ = GC.optimize_quiet(g4, fix_first_pose=ff, verbose=False)
     rn = 1e-9 * (1 + S_ + ST) * amp
-    if not GC.all_finite(g3) or _report_ambiguous(ra, 1e-4, rn, tol_sum) or _report_ambiguous(rb, 1e-4, rn, tol_sum):
-        ctx.event("default-run:ambiguous-or-nonfinite-skipped")
+    if not GC.all_finite(g3):
+        ctx.event("default-run:nonfinite-skipped")
         return
     if (ra.num_iterations, bool(ra.converged)) != (rb.num_iterations, bool(rb.converged)):
+        # the two runs stopped at different iterations: legitimate only if a stopping comparison of one of them lies within the
+        # rounding noise of its threshold (then nothing further can be compared: the states are different iterates)
+        if _report_ambiguous(ra, 1e-4, rn, tol_sum) or _report_ambiguous(rb, 1e-4, rn, tol_sum):
+            ctx.event("default-run:stopped-at-different-iterations:ambiguous-threshold")
+            return
         return ctx.fail("report-frame-dependent", "default optimize(): (num_iterations, converged) = %r in the original frame, %r in the transformed frame" % ((ra.num_iterations, ra.converged), (rb.num_iterations, rb.converged)))
     for i, (v1, v2) in enumerate(zip(g3._vertices, g4._vertices)):
         kk = gs.kind_of(v1.pose)
